@@ -202,7 +202,7 @@ def run(tier):
                      'Data(int)/dataToInt round trip (toStr / strTo<int>) that carries operand values between arms']
     part.assumptions += [
         'pmlarms: operands are integer-valued (what dataToInt(evaluateExpr(operand)) returned); the string-comparison branch of PML_EQ is dropped',
-        'pmlarms: the textually first *opIter++ of an arm yields the LEFT operand. In C++ the two increments in one expression are unsequenced (undefined behaviour); gcc evaluates them left to right in this build. Reported as a static fact (clang -Wunsequenced), not proved',
+        'pmlarms: the textually first *opIter++ of an arm yields the LEFT operand. For arms that fetch both operands in ONE expression (listed under arms_whose_operand_order_is_left_to_the_compiler) C++ leaves the order of the two overloaded operator++ calls unspecified; gcc evaluates them left to right in this build. Detected syntactically by the extractor, not proved',
         'pmlarms: machine arithmetic - two\'s-complement wrap-around of + - * and unary minus is taken as defined; shift counts outside 0..31 are left unspecified',
         'pmlarms: NOT covered - precedence/associativity (bison grammar), variable storage (getVariable/setVariable over Data maps), dataToInt string parsing, array/struct read-back',
     ]
@@ -223,7 +223,7 @@ def run(tier):
                                'grammar_arities': a['grammar_arities'], 'dropped': a['dropped']})
     part.extra['arms_not_extracted'] = ext['not_extracted']
     part.extra['operator_tokens_without_arm'] = ext['missing']
-    part.extra['static_fact_unsequenced'] = unsequenced_fact()
+    part.extra['arms_whose_operand_order_is_left_to_the_compiler'] = [a['token'] for a in ext['arms'] if a.get('operand_order_left_to_compiler')]
     jobs = []
     for h, tok, n in entries + [('h_arms_present', None, None), ('h_dataToBool', 'PML_NEG', 1)]:
         jobs.append(cbmcrun.Job(h, [hpath], h, wd, dfcc=False, includes=[HERE, wd],
